@@ -20,14 +20,14 @@ import (
 )
 
 type runCtx struct {
-	prop, tier  string
-	seed        int64
-	shard, of   int
-	work        string // private scratch dir
-	goit        string // goit binary (for the few monitors that mix in CLI calls)
-	res         *core.InResult
-	progress    *os.File
-	rng         *rand.Rand
+	prop, tier string
+	seed       int64
+	shard, of  int
+	work       string // private scratch dir
+	goit       string // goit binary (for the few monitors that mix in CLI calls)
+	res        *core.InResult
+	progress   *os.File
+	rng        *rand.Rand
 }
 
 func (c *runCtx) thorough() bool { return c.tier == "thorough" }
@@ -37,9 +37,9 @@ func (c *runCtx) pick(q, t int) int {
 	}
 	return q
 }
-func (c *runCtx) oracle(id string)  { c.res.Oracles[id]++ }
-func (c *runCtx) count(k string)    { c.res.Counts[k]++ }
-func (c *runCtx) class(k string)    { c.res.Classes[k]++ }
+func (c *runCtx) oracle(id string) { c.res.Oracles[id]++ }
+func (c *runCtx) count(k string)   { c.res.Counts[k]++ }
+func (c *runCtx) class(k string)   { c.res.Classes[k]++ }
 func (c *runCtx) sample(s any) {
 	if len(c.res.Samples) < 4 {
 		c.res.Samples = append(c.res.Samples, s)
